@@ -2,6 +2,7 @@ package main
 
 import (
 	"fmt"
+	"sort"
 	"go/ast"
 	"go/constant"
 	"go/parser"
@@ -618,15 +619,20 @@ func (e *Env) binary(n *ast.BinaryExpr) Val {
 	panic(specErr("%s: unsupported operator %s", e.what, n.Op))
 }
 
-// pickPattern chooses a trigger for a quantified body: the smallest application of an
-// uninterpreted symbol or select that contains the bound variable.
-func pickPattern(body, v string) string {
-	best := ""
-	var walk func(s string)
+// pickPattern chooses triggers for a quantified body: applications of uninterpreted symbols or select
+// that contain the bound variable, preferring those where the variable is not under a multiplication.
+// Up to two alternatives are returned (as ":pattern (..) :pattern (..)" content joined by the caller).
+func pickPatterns(body, v string) []string {
+	type cand struct {
+		t     string
+		score int
+	}
+	var cands []cand
+	seen := map[string]bool{}
 	interpreted := map[string]bool{"and": true, "or": true, "not": true, "=>": true, "=": true, "<": true, "<=": true, ">": true, ">=": true,
 		"+": true, "-": true, "*": true, "ite": true, "div": true, "mod": true, "forall": true, "exists": true, "!": true, "let": true, "distinct": true, "store": true}
+	var walk func(s string)
 	walk = func(s string) {
-		// s is a term; iterate over nested parenthesised subterms
 		for i := 0; i < len(s); i++ {
 			if s[i] != '(' {
 				continue
@@ -648,10 +654,17 @@ func pickPattern(body, v string) string {
 			if k := strings.IndexAny(head, " )"); k >= 0 {
 				head = head[:k]
 			}
-			if !interpreted[head] && !strings.HasPrefix(head, "(") && containsSym(sub, v) {
-				if best == "" || len(sub) < len(best) {
-					best = sub
+			if !interpreted[head] && !strings.HasPrefix(head, "(") && containsSym(sub, v) && !seen[sub] && !strings.Contains(sub, "forall") {
+				seen[sub] = true
+				sc := len(sub)
+				if strings.Contains(sub, "(* ") || strings.Contains(sub, "(div ") || strings.Contains(sub, "(mod ") {
+					sc += 10000
 				}
+				if head == "select" {
+					sc -= 20
+				}
+				// nested candidates: prefer the innermost application that still contains the variable
+				cands = append(cands, cand{sub, sc})
 			}
 			if len(sub) > 2 {
 				walk(sub[1 : len(sub)-1])
@@ -660,7 +673,40 @@ func pickPattern(body, v string) string {
 		}
 	}
 	walk(body)
-	return best
+	// drop candidates that contain another candidate (keep minimal ones)
+	var mins []cand
+	for _, c := range cands {
+		minimal := true
+		for _, o := range cands {
+			if o.t != c.t && strings.Contains(c.t, o.t) {
+				minimal = false
+				break
+			}
+		}
+		if minimal {
+			mins = append(mins, c)
+		}
+	}
+	sort.Slice(mins, func(a, b int) bool { return mins[a].score < mins[b].score })
+	var out []string
+	for _, c := range mins {
+		if len(out) >= 2 {
+			break
+		}
+		if c.score >= 10000 && len(out) > 0 {
+			break
+		}
+		out = append(out, c.t)
+	}
+	return out
+}
+
+func pickPattern(body, v string) string {
+	ps := pickPatterns(body, v)
+	if len(ps) == 0 {
+		return ""
+	}
+	return strings.Join(ps, ") :pattern (")
 }
 
 func containsSym(term, sym string) bool {
@@ -708,10 +754,50 @@ func (e *Env) quant(kind string, n *ast.CallExpr) Val {
 		return BoolV(f)
 	}
 	pat := pickPattern(body.S, bv)
+	var full string
 	if pat != "" {
-		return BoolV(fmt.Sprintf("(%s ((%s Int)) (! %s :pattern (%s)))", kind, bv, f, pat))
+		full = fmt.Sprintf("(%s ((%s Int)) (! %s :pattern (%s)))", kind, bv, f, pat)
+	} else {
+		full = fmt.Sprintf("(%s ((%s Int)) %s)", kind, bv, f)
 	}
-	return BoolV(fmt.Sprintf("(%s ((%s Int)) %s)", kind, bv, f))
+	if kind == "forall" {
+		vc.quants = append(vc.quants, &quantRec{BV: bv, Text: full, Inner: f})
+	}
+	return BoolV(full)
+}
+
+// quantRec remembers a universally quantified spec formula so that emit() can add ground instances of it.
+type quantRec struct {
+	BV    string
+	Text  string
+	Inner string
+}
+
+// substSym replaces every occurrence of symbol sym in term by repl.
+func substSym(term, sym, repl string) string {
+	var b strings.Builder
+	i := 0
+	n := len(term)
+	for i < n {
+		c := term[i]
+		if c == '(' || c == ')' || c == ' ' {
+			b.WriteByte(c)
+			i++
+			continue
+		}
+		j := i
+		for j < n && term[j] != '(' && term[j] != ')' && term[j] != ' ' {
+			j++
+		}
+		tok := term[i:j]
+		if tok == sym {
+			b.WriteString(repl)
+		} else {
+			b.WriteString(tok)
+		}
+		i = j
+	}
+	return b.String()
 }
 
 func (e *Env) beRead(b Val, off string, n int) string {
@@ -794,7 +880,9 @@ func (e *Env) callExpr(n *ast.CallExpr) Val {
 		if pat == "" {
 			pat = pickPattern(lhs, bv)
 		}
-		return BoolV(fmt.Sprintf("(forall ((%s Int)) (! %s :pattern (%s)))", bv, f, pat))
+		full := fmt.Sprintf("(forall ((%s Int)) (! %s :pattern (%s)))", bv, f, pat)
+		vc.quants = append(vc.quants, &quantRec{BV: bv, Text: full, Inner: f})
+		return BoolV(full)
 	case "bytesEq":
 		a, b := arg(0), arg(1)
 		vc.n++
@@ -803,7 +891,9 @@ func (e *Env) callExpr(n *ast.CallExpr) Val {
 		rhs := e.index(b, bv).S
 		f := Imp(And(Le("0", bv), Lt(bv, e.lenOf(a))), Eq(lhs, rhs))
 		pat := pickPattern(lhs, bv)
-		return BoolV(And(Eq(e.lenOf(a), e.lenOf(b)), fmt.Sprintf("(forall ((%s Int)) (! %s :pattern (%s)))", bv, f, pat)))
+		full := fmt.Sprintf("(forall ((%s Int)) (! %s :pattern (%s)))", bv, f, pat)
+		vc.quants = append(vc.quants, &quantRec{BV: bv, Text: full, Inner: f})
+		return BoolV(And(Eq(e.lenOf(a), e.lenOf(b)), full))
 	case "sameBytes":
 		// sameBytes(x): contents of window x equal to their value in the old state
 		cur := arg(0)
@@ -815,7 +905,9 @@ func (e *Env) callExpr(n *ast.CallExpr) Val {
 		lhs := e.index(cur, bv).S
 		rhs := e.with(e.old).index(cur, bv).S
 		f := Imp(And(Le("0", bv), Lt(bv, cur.Len)), Eq(lhs, rhs))
-		return BoolV(fmt.Sprintf("(forall ((%s Int)) (! %s :pattern (%s)))", bv, f, pickPattern(lhs, bv)))
+		full := fmt.Sprintf("(forall ((%s Int)) (! %s :pattern (%s)))", bv, f, pickPattern(lhs, bv))
+		vc.quants = append(vc.quants, &quantRec{BV: bv, Text: full, Inner: f})
+		return BoolV(full)
 	case "isErr":
 		return BoolV(vc.errIs(arg(0).S, arg(1).S))
 	case "fresh":
@@ -842,6 +934,9 @@ func (e *Env) callExpr(n *ast.CallExpr) Val {
 		cur := Sel(vc.heapGet(e.st, "G_pos", "(Array Int Int)"), r.S)
 		old := Sel(vc.heapGet(e.oldOr(), "G_pos", "(Array Int Int)"), r.S)
 		return IntV(Sub(cur, old), nil)
+	case "streamClean":
+		vc.streamDecls()
+		return BoolV(app("streamClean", arg(0).S))
 	case "streamLen":
 		vc.declareFun("streamLen", []string{"Int"}, "Int")
 		return IntV(app("streamLen", arg(0).S), nil)
